@@ -16,7 +16,9 @@ from ebpfcat.ethercat import EtherCat, SyncManager, Terminal
 
 PROP = "C20"
 LEVEL = "model_checking"
-RULE = ("all sequences of map(read) / map(write) / unmap(i-th live mapping) "
+RULE = ("all sequences of map(read) / map(write) / unmap(i-th live mapping) / "
+        "at most one end of a mapping by an exception in its body "
+        "(cancellation, error) "
         "up to the length bound on terminals with 1..4 FMMUs, logical "
         "addresses starting at 0 or 0x100, at most one (thorough: two) "
         "operations per sequence with an injected bus fault (its first FMMU "
@@ -137,6 +139,26 @@ class World:
         logical, write, cm, slot = self.live[op[1]]
         # a group's two mappings end together
         self.leaving += [l for l in self.live if l[2] is cm]
+        if op[0] == "unmapx":
+            # the body of the mapping's with-block ends by an exception: the
+            # task using it was cancelled, or it failed
+            exc = asyncio.CancelledError() if op[2] == "cancel" \
+                else RuntimeError("the body failed")
+            self.failed += 1
+
+            async def leave():
+                try:
+                    r = await cm.__aexit__(type(exc), exc, None)
+                except BaseException as e:
+                    return e is exc
+                return not r
+            fut = asyncio.ensure_future(leave())
+
+            def done():
+                if fut.exception() is not None or not fut.result():
+                    return ("unmap raised", "exception of the body lost")
+                return ("unmapped", slot)
+            return fut, done
         fut = asyncio.ensure_future(cm.__aexit__(None, None, None))
 
         def done():
@@ -183,7 +205,7 @@ class World:
                 else (0x1100, self.sizes[0])
             hit = [i for i, r in enumerate(regs)
                    if r == (logical, size, off, 2 if write else 1, 1)]
-            if self.faults and len(hit) > 1 and slot in hit:
+            if (self.faults or self.failed) and len(hit) > 1 and slot in hit:
                 # an injected fault left an ended mapping's registers
                 # behind; they may equal those of a new mapping at the same
                 # address: the mapping's own FMMU is the one it was given
@@ -265,6 +287,11 @@ def work(conf, res):
                        for a, d in live_keys):
                     basic.append(("mapsame", wr))
             ops = list(basic)
+            if not any(o[0] == "unmapx" for o in hist):
+                # at most one mapping per sequence ends by an exception in
+                # its body (cancellation of the task, an error)
+                ops += [("unmapx", j, how) for j in range(nlive)
+                        if j not in dup for how in ("cancel", "error")]
             if sum(1 for o in hist if is_faulted(o)) < work.faults:
                 ops += [(o[0], o[1], True) for o in basic
                         if o[0] in ("map", "mapsame")][2:] + \
